@@ -47,3 +47,15 @@ pub struct CowTag<'a> { inner: std::borrow::Cow<'a, str> }
 // IoError stands for std::io::Error (opaque; only its presence matters).
 #[verifier::external_body]
 pub struct IoError { inner: std::io::Error }
+
+impl<'a> CowStr<'a> {
+    // explicit form of `Cow::as_ref()` / deref: the text itself
+    #[verifier::external_body]
+    pub fn as_ref(&self) -> (s: &str)
+        ensures s@ == self@,
+    { self.inner.as_ref() }
+}
+
+// RAII guard around a thread-local fallback location (src/de_error.rs); opaque here.
+#[verifier::external_body]
+pub struct MissingFieldLocationGuard { _p: () }
